@@ -16,7 +16,7 @@ from ..engine import pattern as P
 from ..engine.facts import dotted, const, src, walk_func, enclosing_stmt, ancestors
 from . import skeletons as sk
 from . import c19  # idents-fields (scan state, parameter binding) is registered for C04 there
-from .common import calls, stmt_nodes, contains, pn, access_paths, assigned_from, describe_owner
+from .common import calls, stmt_nodes, contains, pn, access_paths, assigned_from, describe_owner, resolve, resolve_deep
 from .common import raise_names as common_raise_names
 
 
@@ -150,19 +150,24 @@ def lookup_siblings(ctx):
     ctx.check(P.has(gi, "if $k in self._data:\n    return self._data[$k]\nelse:\n    return builtins.__dict__[$k]") or P.has(gi, "if $k in self._data:\n    return self._data[$k]\nreturn builtins.__dict__[$k]"), "__getitem__", db.where(gi), "context[key] does not look in the data first and builtins second", "data, then builtins (KeyError otherwise)")
     ge = db.func("runtime.Context.get")
     r = [x for x in walk_func(ge) if isinstance(x, ast.Return)]
-    ctx.check(P.has(ge, "return self._data.get($k, builtins.__dict__.get($k, $d))"), "get", db.where(ge), "context.get is %s" % (src(r[0].value) if r else None), "data, then builtins, then default")
+    ctx.check(P.has(ge, "return self._data.get($k, builtins.__dict__.get($k, $d))") or any(P.matches(resolve_deep(ge, x.value), "self._data.get($k, builtins.__dict__.get($k, $d))") for x in r if x.value is not None), "get", db.where(ge), "context.get is %s" % (src(r[0].value) if r else None), "data, then builtins, then default")
     ks = db.func("runtime.Context.keys")
     ctx.check(P.has(ks, "self._data.keys()") or P.has(ks, "list(self._data)"), "keys", db.where(ks), "keys() does not list the data", "keys of the data")
     # the undeclared filter
     cls = db.cls("codegen._Identifiers")
     copies = []
     for n in ast.walk(cls):
-        if isinstance(n, ast.If) and P.has(n.test, "self.declared.union($_)"):
+        if isinstance(n, ast.If) and (P.has(n.test, "self.declared.union($_)") or (getattr(n, "_func", None) is not None and P.has(resolve_deep(n._func, n.test), "self.declared.union($_)"))):
             copies.append(n)
-    ctx.require(len(copies) >= 6, "expected >=6 copies of the undeclared filter, found %d" % len(copies))
+    ctx.require(len(copies) >= 3, "expected several copies of the undeclared filter in _Identifiers, found %d" % len(copies))
     good = {id(n_) for n_, _ in P.find(cls, "if $i != 'context' and $i not in self.declared.union(self.locally_declared):\n    self.undeclared.add($i)")}
     for c in copies:
         f = getattr(c, "_func", None)
+        if id(c) not in good and f is not None:
+            # the set of declared names held in a local
+            env_ = {}
+            if P.matches(resolve_deep(f, c.test), "$i != 'context' and $i not in self.declared.union(self.locally_declared)") and len(c.body) == 1 and P.matches(c.body[0], "self.undeclared.add($i)"):
+                good.add(id(c))
         ctx.check(id(c) in good, "filter@%s:%d" % (f.name if f else "?", [x for x in copies if getattr(x, '_func', None) is f].index(c)), db.where(c), "copy of the undeclared filter differs from its siblings: `%s` -> %s" % (src(c.test), src(c.body[0])), "agrees")
     # nested scopes see the parent's declarations
     init = db.func("codegen._Identifiers.__init__")
